@@ -33,7 +33,7 @@ META = {
         "not_covered": COMMON_NOT + ["everything specific to Rich (its merge / merge_expected_found / replace_expected_found): CBMC runs out of memory on Rich even for one isolated merge", "grammars with `not` (excluded by the property)", "the position attributed to a rejecting filter (permissive corner)", "Simple"],
     },
     "C07": {
-        "bounds": {"quick": "&str: up to 3 characters from {a, e-acute, euro sign, emoji} (1..4 bytes); &[u8]: N=3; Input::map: 3 tokens with symbolic gaps 0..=3 and widths 1..=3",
+        "bounds": {"quick": "&str: up to 3 characters from {a, e-acute, euro sign, emoji} (1..4 bytes); &[u8]: N=3; Input::map (by value and by reference) and IterInput: 3 tokens with symbolic gaps 0..=3 and widths 1..=3, end-of-input span beyond the last token (gap 0..=2, width 0..=2)",
                    "thorough": "same (plus every C01/C02 digest, which embeds the span of every node)"},
         "not_covered": COMMON_NOT + ["custom Span types", "pratt fold callbacks' spans", "Stream (spans are plain indices: C10)"],
     },
